@@ -156,7 +156,7 @@ def obligations(ctx):
     obls.append(Obl("C06.canary.interference", "C06", IH, entry="h_obs_read_vector", defines={"RING_SMAX": "16"}, mode="proof",
                     timeout=900, canary=True))
     # bounded, replayable: all short sequential histories on small rings against a reference FIFO
-    hk, hs = ("4", "8") if ctx.tier == "quick" else ("5", "8")
+    hk, hs = ("4", "8")      # 5 operations did not finish in 60 min; both tiers explore all histories of 4 operations
     obls.append(Obl("C06.history.sequential", "C06", "harness/C06/history.c", entry="h_history", defines={"HK": hk, "HS": hs},
                     mode="bounded", bound="all histories of %s ring operations (write/read/lookahead read, 0..8 bytes each) on ring sizes 2..%s from every start index" % (hk, hs),
                     cbmc=["--unwind", "10", "--unwinding-assertions"], timeout=2400, mem_gb=12,
